@@ -45,6 +45,14 @@ class BufWorld(World):
                 res = self.res[r]
                 self.frozen[r] = (res.raw(), res.stat() if hasattr(res, "stat") else None)
                 self.absent_at_freeze[r] = res.raw() is None
+                if ("shared_tree_detach" in self.excl and self.ci.buffered == "memory"
+                        and sum(1 for i in self.roots() if self.handles[i].res == r) >= 2):
+                    # known finding K1: in shared-memory buffered mode every object adopts ONE shared
+                    # container, so child handles taken from an object before that are orphaned
+                    for h in self.handles:
+                        if h.res == r and h.path and h.attached:
+                            h.attached = False
+                            self.excluded += 1
             elif was and not now:
                 self.frozen.pop(r, None)
                 # a buffered session that leaves the logical content empty need not create the file
